@@ -76,3 +76,20 @@ solve_one_contract("sem", "iface:ConsistencyAlg",
         ("C02.step_range", f"implies({SOL_HYP}, 0 <= lv and lv <= stacks_top[0])"),
     ])
 REG.contracts["nucs/solvers/backtrack_solver.py::solve_one#sem"].props = ["C02", "C03", "C10"]
+
+# ------------------------------------------------------------------ acceptance variant (C01 composition, full-mask constraints, BC)
+# per level: K (enabled constraints instantiated to sigma hold unless queued / unless the recorded update wakes them), J (disabled ones hold on the box)
+WATCH = lambda l: f"has(triggers[dom_update_stack[{l}, DOM_UPDATE_IDX], p], dom_update_stack[{l}, DOM_UPDATE_EVENTS])"
+ACC_KL = f"forall(l, 0, stacks_top[0], forall(p, 0, P, implies({NEs}[l, p] and onpoint({SS}, l, p) and not {WATCH('l')}, rel_holds(p))))"
+ACC_JL = f"forall(l, 0, stacks_top[0] + 1, forall(p, 0, P, implies(not {NEs}[l, p] and in_box({SS}, l), rel_holds(p))))"
+ACC_STATE = [("C01.K", ACC_K(SS, "triggered_propagators", "-1")), ("C01.KL", ACC_KL), ("C01.JL", ACC_JL)]
+solve_one_contract("acc", "nucs/solvers/bound_consistency_algorithm.py::bound_consistency_algorithm#acc",
+    [(f"C17.backtracks", f"{dstat(BT)} >= bt")] + ACC_STATE,
+    [("C01.satisfies", f"implies(result is not None and forall(d, 0, D, trig(d) == d and sigma[d] == {SS}[stacks_top[0], d, MIN]), forall(p, 0, P, rel_holds(p)))"),
+     ("C01.K_post", f"implies(result is not None, {ACC_K(SS, 'triggered_propagators', '-1')})"),
+     ("C01.KL_post", f"implies(result is not None, {ACC_KL})"), ("C01.JL_post", f"implies(result is not None, {ACC_JL})")],
+    timeout_ms=200000)
+_c = REG.contracts["nucs/solvers/backtrack_solver.py::solve_one#acc"]
+_c.props = ["C01"]
+_c.requires = list(_c.requires) + [ALLFULL] + [(n + "0", e) for n, e in ACC_STATE]
+_c.extra["defs"] = [V_DEF]
